@@ -272,7 +272,7 @@ def run_cases(name, imports, pairs, shard=400, timeout=600):
     shards = [pairs[i:i + shard] for i in range(0, len(pairs), shard)] or [[]]
     procs = []
     for k, sh_pairs in enumerate(shards):
-        path = os.path.join(GEN, f"Cases_{name}_{k}.v")
+        path = os.path.join(GEN, f"Cases_{name}_p{os.getpid()}_{k}.v")
         with open(path, "w") as f:
             f.write("From Verif Require Import Lib.Base.\n")
             for imp in imports:
@@ -331,7 +331,7 @@ def eval_terms(name, imports, terms, shard=200, timeout=600, preamble=""):
     shards = [terms[i:i + shard] for i in range(0, len(terms), shard)] or [[]]
     procs = []
     for k, ts in enumerate(shards):
-        path = os.path.join(GEN, f"Cases_{name}_e{k}.v")
+        path = os.path.join(GEN, f"Cases_{name}_p{os.getpid()}_e{k}.v")
         with open(path, "w") as f:
             f.write("From Verif Require Import Lib.Base.\n")
             for imp in imports:
